@@ -97,6 +97,33 @@ func TestTreePersistent(t *testing.T) {
 	require.NoError(t, bt3.Close())
 }
 
+// A root split of a file-backed tree whose split() allocation extends (and possibly moves) the
+// file mapping must not read the root through the slice taken before the split.
+func TestTreePersistentRootSplitWhileGrowing(t *testing.T) {
+	defer setPageSize(os.Getpagesize())
+	for _, ps := range []int{96, 80, 128} {
+		setPageSize(ps)
+		dir, err := os.MkdirTemp("", "")
+		require.NoError(t, err)
+		bt := &Tree{}
+		bt.buffer, err = NewBufferPersistent(filepath.Join(dir, "tree.buf"), 1000)
+		require.NoError(t, err)
+		bt.buffer.offset = uint64(len(bt.buffer.buf))
+		bt.data = bt.buffer.Bytes()
+		bt.nextPage = 1
+		bt.initRootNode()
+		const N = 400
+		for k := uint64(N); k >= 1; k-- {
+			bt.Set(k*7+3, k+1)
+		}
+		for k := uint64(1); k <= N; k++ {
+			require.Equal(t, k+1, bt.Get(k*7+3))
+		}
+		require.NoError(t, bt.Close())
+		require.NoError(t, os.RemoveAll(dir))
+	}
+}
+
 func TestTreeBasic(t *testing.T) {
 	setAndGet := func() {
 		bt := NewTree("TestTreeBasic")
